@@ -52,7 +52,7 @@ class blockiterator(object):
             if len(lastb)>0:
                 self.bitcnt = 0
                 yield lastb
-        else:
+        elif bitlen>0:
             assert nc==bitlen
             self.bitcnt = start+nc
             yield Pi
